@@ -252,8 +252,10 @@ impl<'a, 'o, 'c> CommonMarkFormatter<'a, 'o, 'c> {
                 write!(self.v, "\\{}", c as char).unwrap();
                 self.column += 2;
             } else {
+                // Written directly: `write_all` re-enters `output`, which emits the container
+                // prefix a second time when this is the first byte of a line.
                 let s = format!("&#{};", c);
-                self.write_all(s.as_bytes()).unwrap();
+                self.v.extend_from_slice(s.as_bytes());
                 self.column += s.len();
             }
         } else {
